@@ -1,6 +1,8 @@
 package main
 
 import (
+	"sort"
+	"os"
 	"fmt"
 	"go/token"
 	"go/types"
@@ -53,6 +55,7 @@ func (fr *frame) callCommon(site ssa.Value, c *ssa.CallCommon, args []*Val, rt t
 		}
 		// single known implementation with static dispatch? use interface contract if any
 		if con := e.contracts[ifaceKey(c)]; con != nil {
+			e.trust("interface contract assumed at dynamic dispatch: " + strings.TrimPrefix(con.Func, "iface:") + " (" + con.File + "); implementations are bound to it only where they carry the same clauses themselves")
 			return fr.callByContract(con, nil, c, append([]*Val{recv}, args...), rt, pos)
 		}
 		fr.havocCall(c)
@@ -117,11 +120,52 @@ func (fr *frame) havocCall(c *ssa.CallCommon) {
 		ft.havocAll(fr.cur.mem)
 		return
 	}
+	// Components the callee writes only in memory it allocates itself keep their contents at every
+	// reference that exists now. The callee's allocations live in a reserved block of references above
+	// the current allocation counter (the caller's later allocations come after that block).
+	if os.Getenv("GOVC_DEBUG_MODS") != "" {
+		var nf, fo []string
+		for k := range ms.comps {
+			if ms.nonFresh[k] {
+				nf = append(nf, k)
+			} else {
+				fo = append(fo, k)
+			}
+		}
+		sort.Strings(nf)
+		sort.Strings(fo)
+		fmt.Fprintf(os.Stderr, "MODS %s: nonfresh=%v freshonly=%v\n", c.Value.Name(), nf, fo)
+	}
+	bound := allocBase + int64(ft.nalloc)
+	reserved := false
+	var ks []string
 	for k := range ms.comps {
+		ks = append(ks, k)
+	}
+	sort.Strings(ks)
+	for _, k := range ks {
+		sortS, known := ft.compSort[k]
+		if ms.nonFresh[k] || !known || os.Getenv("GOVC_NO_FRESH_FRAME") != "" {
+			ft.havocComp(fr.cur.mem, k)
+			fr.checkLoopMod(k)
+			continue
+		}
+		old := ft.memGet(fr.cur.mem, k, sortS)
 		ft.havocComp(fr.cur.mem, k)
 		fr.checkLoopMod(k)
+		if !reserved {
+			reserved = true
+			ft.nalloc += calleeAllocBlock
+		}
+		nv := ft.memGet(fr.cur.mem, k, sortS)
+		r := ft.c.BoundVar("r")
+		rt := Term{SInt, r}
+		ft.c.Assume(nv, ft.c.Quant(false, r, SInt, mkImp(app(SBool, "<=", rt, intConst(bound)), mkEq(mkSelect(nv, rt), mkSelect(old, rt)))))
 	}
 }
+
+// calleeAllocBlock: number of references reserved for the allocations of one havocked call.
+const calleeAllocBlock = 1 << 20
 
 // inlinableInLemma: inside lemma blocks nested callees may contain loops (cut with their contract's invariants,
 // or simply havocked when the path through the loop is not taken) and may be larger.
